@@ -111,6 +111,14 @@ type MessageUserOneB struct { // the same fields without the arrays: a different
 	F float32 `mavext:"true"`
 }
 
+// a second definition of message 50001 (an application that redefines a message between two nodes)
+type MessageUserARedefined struct {
+	A uint16
+	B uint8
+}
+
+func (*MessageUserARedefined) GetID() uint32 { return 50001 }
+
 // small messages at the id boundaries of the two frame versions
 type MessageUserID254 struct{ V uint8 }
 type MessageUserID255 struct{ V uint16 }
